@@ -16,7 +16,25 @@
 # You should have received a copy of the GNU Lesser General Public
 # License along with pyxtuml. If not, see <http://www.gnu.org/licenses/>.
 import collections.abc
+import os
 import uuid
+
+
+def _verif_traced(op):
+    '''
+    Verification hook. Unless the environment variable PYXTUML_VERIF is set,
+    the decorated function is left untouched; otherwise it is handed to the
+    tracer of the verification harness (module xtuml_verif_hook), which
+    records each top-level call together with the model state around it.
+    '''
+    def decorate(fn):
+        if not os.environ.get('PYXTUML_VERIF'):
+            return fn
+        
+        import xtuml_verif_hook
+        return xtuml_verif_hook.traced(op, fn)
+    
+    return decorate
 
 
 class IdGenerator(object):
